@@ -111,14 +111,14 @@ def st_es_case(draw, tier="quick", versions=(0, 1, 2), boundary_choices=(True, T
     lmax = draw(st.integers(2, 4 if dim == 2 else 3))
     a, b = st_box(draw, dim)
     tape, mode = st_tape(draw)
-    hi = {2: 500, 3: 400}[dim]
+    hi = {2: 1500, 3: 1200}[dim]
     if tier == "thorough":
         hi = int(hi * 1.6)
     return dict(kind="es", dim=dim, lmin=1, lmax=lmax, a=a, b=b, version=draw(st.sampled_from(list(versions))),
                 nref=draw(st.integers(0, 3)), boundary=draw(st.sampled_from(list(boundary_choices))),
                 auto=draw(st.booleans()), ssd=draw(st.booleans()),
                 estimator=draw(st.sampled_from(["tape", "tape", "library"])),
-                maxev=draw(st.integers(hi // 3, hi)), maxsteps=draw(st.sampled_from([1, 2, 3, 5, 8, 12, 16, 20])), tape=tape, mode=mode,
+                maxev=draw(st.integers(hi // 3, hi)), maxsteps=draw(st.sampled_from([2, 3, 4, 5, 6, 8, 12, 16])), tape=tape, mode=mode,
                 fseed=draw(st.integers(0, 10 ** 6)))
 
 
@@ -255,3 +255,24 @@ def dw_levels(sa, d):
 def dw_points(sa, d):
     objs = dw_objects(sa, d)
     return [objs[0].start] + [o.end for o in objs]
+
+
+# ------------------------------------------------------------------------------------------------------------
+# extend-split helpers
+# ------------------------------------------------------------------------------------------------------------
+def es_boxes(sa):
+    return {(tuple(float(x) for x in o.start), tuple(float(x) for x in o.end)): id(o) for o in sa.refinement.get_objects()}
+
+
+def es_step_kinds(before, sa):
+    """(number of areas extended, split, untouched) between a snapshot es_boxes() and the current state"""
+    after = es_boxes(sa)
+    ext = spl = same = 0
+    for box, i in before.items():
+        if box not in after:
+            spl += 1
+        elif after[box] != i:
+            ext += 1
+        else:
+            same += 1
+    return ext, spl, same
